@@ -204,3 +204,32 @@ package submission
 //@ frame-trusted metrics only
 //@ requires d != nil
 //@ ensures [a-log-without-a-client-is-not-contacted] !old(has(d.logClients, logURL)) ==> result1 != nil && result0 == nil
+
+// C17 "only logs whose accepted roots, where known, include the chain's root are contacted": what
+// "known" means is decided here. A log's roots are known exactly when its get-roots call answered;
+// root data counts as complete only when that is so for every log client; a log whose call failed is
+// reported under its URL and gets no pool (so addSomeChain treats it as "roots unknown", not as
+// "accepts nothing").
+//@ func (*Distributor).RefreshRoots$1
+//@ props C17
+//@ modifies nothing
+//@ frame-trusted the goroutine builds a result of its own (a fresh pool) and reports it on the channel; it does not write the distributor
+//@ site GetAcceptedRoots#1 as gr
+//@ site send#1 as s1
+//@ site send#2 as s2
+//@ requires lc != nil
+//@ at s1 assert [a-failed-fetch-is-reported-under-its-log-without-a-pool] gr.res1 != nil && s1.x.LogURL == logURL && s1.x.Err != nil && s1.x.Roots == nil
+//@ at s2 assert [an-answered-fetch-is-reported-under-its-log-with-a-pool] gr.res1 == nil && s2.x.LogURL == logURL && s2.x.Roots != nil
+
+//@ func (*Distributor).RefreshRoots
+//@ props C17
+//@ loop-frames
+//@ requires d != nil && lastGetRootsSuccess != nil
+//@ requires forall u string :: has(d.logClients, u) ==> d.logClients[u] != nil
+//@ loop 1 invariant forall u string :: has(d.logClients, u) ==> d.logClients[u] != nil
+//@ ensures [disabled-root-check-fetches-nothing] old(d.rootCompatibilityCheckDisabled) ==> len(result) == 0
+//@ site x509util.NewPEMCertPool#1 as np
+//@ at np assert [root-data-is-complete-only-when-every-log-has-a-pool] d.rootDataFull == (len(d.logRoots) == len(d.logClients)) && d.logRoots == freshRoots
+//@ ensures [the-merged-pool-is-rebuilt-on-every-refresh] !old(d.rootCompatibilityCheckDisabled) ==> np.called
+//@ loop 2 step-assert [a-failed-fetch-is-reported-under-its-log] r.Err != nil ==> has(errors, r.LogURL) && errors[r.LogURL] == r.Err
+//@ loop 2 step-assert [a-pool-is-recorded-exactly-for-an-answer-that-has-one] r.Roots != nil ==> has(freshRoots, r.LogURL) && freshRoots[r.LogURL] == r.Roots
